@@ -29,6 +29,11 @@
 // built-in's result may have been written below the sandbox boundary. Its function usages are extended
 // by probing the tree under test (discoverFunctions): every name a fresh engine can call as a function
 // without a usage written for it here — count, which the evaluator serves without a registered function.
+//
+// A fourth family (runPanicHist, keys panic/…) puts renders that PANIC in host code (a filter / function
+// registered by the harness panics inside an included partial, a macro, an extended parent, a parent block;
+// the harness recovers around Render) in front of the sandboxed renders on the same engine, over and over:
+// whatever an abandoned render leaves behind in the process, the forbidden callback must never run.
 package main
 
 import (
@@ -36,6 +41,8 @@ import (
 	"errors"
 	"fmt"
 	"regexp"
+	"runtime"
+	"runtime/debug"
 	"sort"
 	"strings"
 	"sync"
@@ -743,6 +750,227 @@ func runHist(c hcas) *vlib.Outcome {
 	return o
 }
 
+// ---- panic-history family: earlier renders on the same engine (same process) panicked in host code
+
+// A panic site is a program whose render reaches a host callback (filter boom / function boomf, registered
+// by the harness) that panics, inside a nested template. @B is the panicking call; template names get the
+// site's index and the callback's sort appended (@N), so that all of them live on one engine.
+type panicSite struct {
+	name  string
+	tmpls map[string]string // xmain@N is rendered
+}
+
+var panicSites = []panicSite{
+	{"an included partial", map[string]string{"xmain@N": "a{% include 'xp@N' %}b", "xp@N": "p@Bq"}},
+	{"a partial included with only", map[string]string{"xmain@N": "a{% include 'xp@N' only %}b", "xp@N": "p@Bq"}},
+	{"a partial included with sandboxed (the policy allows the panicking callback)", map[string]string{"xmain@N": "a{% include 'xp@N' sandboxed %}b", "xp@N": "p@Bq"}},
+	{"a macro of an imported template", map[string]string{"xmain@N": "a{% import 'xl@N' as xl %}{{ xl.xm() }}b", "xl@N": "{% macro xm() %}p@Bq{% endmacro %}"}},
+	{"a macro of the template itself", map[string]string{"xmain@N": "{% macro xm() %}p@Bq{% endmacro %}a{{ _self.xm() }}b"}},
+	{"the body of an extended parent", map[string]string{"xmain@N": "{% extends 'xe@N' %}{% block xb %}c{% endblock %}", "xe@N": "a{% block xb %}{% endblock %}@Bb"}},
+	{"a parent block reached by parent()", map[string]string{"xmain@N": "{% extends 'xe@N' %}{% block xb %}({{ parent() }}){% endblock %}", "xe@N": "a{% block xb %}p@Bq{% endblock %}b"}},
+	{"a partial included with only by an included partial", map[string]string{"xmain@N": "a{% include 'xp@N' %}b", "xp@N": "p{% include 'xq@N' only %}q", "xq@N": "r@Bs"}},
+	{"the rendered template itself (not nested)", map[string]string{"xmain@N": "a@Bb"}},
+}
+
+const panicRepeats = 3 // how often one history (k panicking renders, then sandboxed / plain / sandboxed) is repeated
+
+// One case = one sandboxed program; its history on ONE engine runs through every panic site x sort of the
+// panicking callback x k = 1, 2 panicking renders x panicRepeats rounds.
+type pcas struct {
+	pos     int
+	fn      bool
+	builtin int
+	path    []int
+}
+
+func (c pcas) key() string {
+	f := "fl"
+	if c.fn {
+		f = "fn"
+	}
+	return fmt.Sprintf("panic/%s/%s%d/r%s", positions[c.pos].name, f, c.builtin, pathKey(c.path))
+}
+
+// emptyPools: the engine recycles render contexts (and their maps) through process-wide sync.Pools, and what a
+// panicking render leaves in them is what this family is about. Two collections empty a sync.Pool, so a case
+// starts from empty pools and leaves empty pools to the next case (it is a function of its key, and whatever a
+// broken tree leaves behind stays inside the case that caused it).
+func emptyPools() {
+	runtime.GC()
+	runtime.GC()
+}
+
+func runPanicHist(t *vlib.T, c pcas) *vlib.Outcome {
+	emptyPools()
+	defer emptyPools()
+	defer debug.SetGCPercent(debug.SetGCPercent(-1)) // no collection empties the pools half-way through the history
+	// a render context that has become its own parent sends the engine into an endless recursion: let that end
+	// (fatal error, reported by the framework as a dying worker) after 64 MB of stack instead of 1 GB
+	defer debug.SetMaxStack(debug.SetMaxStack(64 << 20))
+
+	pos := positions[c.pos]
+	ffl, ffn := forbiddenFilters[c.builtin], forbiddenFunctions[c.builtin]
+	name := ffl
+	if c.fn {
+		name = ffn
+	}
+	o := &vlib.Outcome{Counters: map[string]int64{}}
+	o.Counters[fmt.Sprintf("cases_panic_history_depth%d", len(c.path))]++
+	routeNames := make([]string, len(c.path))
+	live := pos.live
+	for i, r := range c.path {
+		routeNames[i] = routes[r].name
+		if routes[r].open && live == "live" {
+			live = "open"
+		}
+	}
+	label := fmt.Sprintf("history of panicking and sandboxed renders on one engine: position %s (%s form, name %s), route [%s]",
+		pos.name, map[bool]string{false: "filter", true: "function"}[c.fn], name, strings.Join(routeNames, " > "))
+	tmpls, want := buildProgram(pos, c.fn, 0, c.path, 0, ffl, ffn, name)
+	for si, site := range panicSites {
+		for _, b := range []struct{ sort, call string }{{"fl", "{{ 'x'|boom }}"}, {"fn", "{{ boomf('x') }}"}} {
+			for n, src := range site.tmpls {
+				sfx := fmt.Sprint(si, b.sort)
+				tmpls[strings.ReplaceAll(n, "@N", sfx)] = strings.ReplaceAll(strings.ReplaceAll(src, "@N", sfx), "@B", b.call)
+			}
+		}
+	}
+	history := []string{}
+	fail := func(run string, format string, args ...interface{}) *vlib.Outcome {
+		o.Violation = label + ", " + run + ": " + fmt.Sprintf(format, args...) + "\n    renders on this engine so far: " + strings.Join(history, " ") + describe(tmpls)
+		o.Detail = map[string]interface{}{"templates": tmpls, "run": run, "renders_so_far": history}
+		return o
+	}
+
+	p, _ := makePolicy(polDefault, ffl, ffn)
+	dp := p.(*twig.DefaultSecurityPolicy)
+	dp.AllowedFilters["boom"], dp.AllowedFunctions["boomf"] = true, true
+	u, err := newEngine(dp, nil, ffl, ffn, tmpls)
+	if err != nil {
+		return fail("setup", "%v", err)
+	}
+	booms := 0
+	u.e.AddFilter("boom", func(v interface{}, a ...interface{}) (interface{}, error) {
+		booms++
+		panic("fault in the host's filter boom")
+	})
+	u.e.AddFunction("boomf", func(a ...interface{}) (interface{}, error) {
+		booms++
+		panic("fault in the host's function boomf")
+	})
+
+	// one sandboxed render: evaluated position => refused, callback never entered from inside
+	results := ""
+	sandboxed := func(run string) *vlib.Outcome {
+		o.Counters["renders"]++
+		history = append(history, "main")
+		u.fl, u.fn = counters{}, counters{}
+		out, err := u.e.Render("main", map[string]interface{}{"w": 0})
+		if u.fl.inside+u.fn.inside > 0 {
+			return fail(run, "the forbidden %s ran inside the sandbox (%d filter / %d function invocations); render returned %q, %v", name, u.fl.inside, u.fn.inside, out, err)
+		}
+		var sv *twig.SecurityViolation
+		switch {
+		case err != nil && !errors.As(err, &sv):
+			return fail(run, "the render failed with an error that is not a security violation: %v", err)
+		case err == nil && live == "live":
+			return fail(run, "the render succeeded (%q) although the forbidden %s stands in an evaluated position", out, name)
+		case err == nil && out != want:
+			return fail(run, "got %q, want %q", out, want)
+		}
+		wantOutside := 1
+		if err == nil {
+			wantOutside = 2
+		}
+		if u.fl.outside != wantOutside || u.fn.outside != wantOutside {
+			return fail(run, "the including template's own calls: filter ran %d times, function %d times, want %d each (render returned %q, %v)", u.fl.outside, u.fn.outside, wantOutside, out, err)
+		}
+		r := "v"
+		if err == nil {
+			r = "s"
+		}
+		if results != "" && results != r {
+			return fail(run, "earlier sandboxed renders of this program ended with %s, this one with %s (v = security violation, s = success)", results, r)
+		}
+		results = r
+		return nil
+	}
+	// the same program without the word sandboxed: full permissions
+	plain := func(run string) *vlib.Outcome {
+		o.Counters["renders"]++
+		history = append(history, "plain")
+		u.fl, u.fn = counters{}, counters{}
+		out, err := u.e.Render("plain", map[string]interface{}{"w": 0})
+		if err != nil || out != want {
+			return fail(run, "got %q, %v; want %q", out, err, want)
+		}
+		inside := u.fl.inside + u.fn.inside
+		if (live == "live" && inside == 0) || (live == "dead" && inside > 0) || u.fl.outside != 2 || u.fn.outside != 2 {
+			return fail(run, "callback invocations: %d inside (position is %s), %d/%d outside, want 2/2", inside, live, u.fl.outside, u.fn.outside)
+		}
+		if inside > 0 {
+			o.Nontrivial = true
+		}
+		return nil
+	}
+	// a render in which the host's callback panics; the harness recovers around the Render call. Whether the
+	// library lets the panic through or turns it into an error is not this property's business.
+	how := ""
+	panicking := func(tmpl string) (h string) {
+		o.Counters["renders"]++
+		history = append(history, tmpl+"!")
+		defer func() {
+			if r := recover(); r != nil {
+				h = "p"
+			}
+		}()
+		if _, err := u.e.Render(tmpl, map[string]interface{}{"w": 0}); err != nil {
+			return "e"
+		}
+		return "-"
+	}
+
+	if v := sandboxed("sandboxed render before any panic"); v != nil {
+		return v
+	}
+	for si, site := range panicSites {
+		for _, bsort := range []string{"fl", "fn"} {
+			for k := 1; k <= 2; k++ {
+				t.Progress()
+				what := fmt.Sprintf("%d panicking render(s) (a host %s panics in %s)", k, map[string]string{"fl": "filter", "fn": "function"}[bsort], site.name)
+				for rep := 1; rep <= panicRepeats; rep++ {
+					for i := 1; i <= k; i++ {
+						before := booms
+						h := panicking(fmt.Sprint("xmain", si, bsort))
+						run := fmt.Sprintf("%s, round %d, panicking render %d", what, rep, i)
+						if booms != before+1 {
+							return fail(run, "the panicking callback was entered %d times, want once (harness error; the render ended with %q)", booms-before, h)
+						}
+						if h == "-" {
+							return fail(run, "the render succeeded although the host's callback panicked (harness error)")
+						}
+						if !strings.Contains(how, h) {
+							how += h
+						}
+					}
+					if v := sandboxed(fmt.Sprintf("round %d, first sandboxed render after %s", rep, what)); v != nil {
+						return v
+					}
+					if v := plain(fmt.Sprintf("round %d, unsandboxed render of the same program after %s and a sandboxed render", rep, what)); v != nil {
+						return v
+					}
+					if v := sandboxed(fmt.Sprintf("round %d, second sandboxed render after %s", rep, what)); v != nil {
+						return v
+					}
+				}
+			}
+		}
+	}
+	o.Counters["panicking_renders"] += int64(booms)
+	o.Class = fmt.Sprintf("panic-history/%s/%s/%s", live, how, results)
+	return o
+}
+
 // ---- built-in family: the policy forbids one of the engine's own functions / filters
 
 // A usage is one call of a built-in with literal arguments and a known, recognisable result.
@@ -1191,9 +1419,9 @@ func paths(depth int) [][]int {
 
 func enumerate(t *vlib.T) {
 	discoverFunctions()
-	maxDepth, histDepth, biDepth := 2, 1, 2
+	maxDepth, histDepth, biDepth, panicDepth := 2, 1, 2, 1
 	if t.Thorough() {
-		maxDepth, histDepth, biDepth = 3, 2, 3
+		maxDepth, histDepth, biDepth, panicDepth = 3, 2, 3, 2
 	}
 	for depth := 0; depth <= maxDepth; depth++ {
 		ps := paths(depth)
@@ -1266,6 +1494,31 @@ func enumerate(t *vlib.T) {
 				}
 			}
 		}
+		// the panic-history family at the same depth: earlier renders on the engine panicked in host code
+		if depth <= panicDepth {
+			for _, path := range ps {
+				for pi, pos := range positions {
+					if _, _, _, ok := compose(path, pos, ""); !ok {
+						continue
+					}
+					for _, fn := range []bool{false, true} {
+						if fn && pos.form == "filter" {
+							continue
+						}
+						for builtin := range forbiddenFilters {
+							if builtin == 1 && (!t.Thorough() || depth == 2) {
+								continue // the re-registered built-in names: thorough tier, depth <= 1
+							}
+							if t.Stopped() {
+								return
+							}
+							c := pcas{pos: pi, fn: fn, builtin: builtin, path: path}
+							t.Case(c.key(), func() *vlib.Outcome { return runPanicHist(t, c) })
+						}
+					}
+				}
+			}
+		}
 		if depth > histDepth {
 			continue
 		}
@@ -1309,7 +1562,9 @@ func main() {
 			"and that built-in stands in every one of 39 positions where its value fits (954 usage x position pairs with the probed usages below) (list-valued usages directly as the sequence of a for loop, also parenthesised, with else, with key and value, nested, behind ok(…), default(…), a ternary, a hash; every usage as condition, set value, argument, chain link, apply) x every route composition up to depth 2 quick / 3 thorough; " +
 			"observed through the output of RenderTo: the render must fail with a security violation and nothing of the built-in's result may have been written behind the boundary; non-trivial when the position is evaluated (live position, or the run was refused). " +
 			"The function usages of that family are extended by PROBING the tree under test: every candidate name (Twig's function names, the engine's filter names, common synonyms: 52 names) x argument shape (a string, a list, a hash, two ascending numbers, two descending numbers, none) is evaluated on a fresh engine without a sandbox; every call that evaluates without error, deterministically, to a plain scalar and whose name has no hand-written usage becomes a usage of its own (on the current tree: count, which the evaluator serves itself without a registered function, with a string, a list and a hash; json_encode with two numbers) " +
-			"and stands in every fitting position x route composition like the others (depth 3: the first argument shape of each name); its expected value is what the unsandboxed engine printed. Position for-bound: every integer-valued usage as both bounds of an allowed range(…) standing as the sequence of a for loop",
+			"and stands in every fitting position x route composition like the others (depth 3: the first argument shape of each name); its expected value is what the unsandboxed engine printed. Position for-bound: every integer-valued usage as both bounds of an allowed range(…) standing as the sequence of a for loop. " +
+			"Panic-history family (keys panic/…): one case per position x form x route composition up to depth 1 quick (custom names) / 2 thorough (re-registered built-in names at depth <= 1); on ONE engine, starting from empty context pools, for each of 9 panic sites (a host callback registered by the harness panics in an included partial, a partial included with only, a partial included with sandboxed, a macro of an imported template, a _self macro, the body of an extended parent, a parent block reached by parent(), a partial included with only two includes down, the rendered template itself) x 2 sorts of callback (filter, function) x k = 1, 2 panicking renders (the harness recovers the panic around Render, or takes the error), " +
+			"3 rounds of [k panicking renders, sandboxed render, the same program without `sandboxed`, sandboxed render], after one sandboxed render before any panic: 487 renders per case, every sandboxed one under the oracle of run A, every unsandboxed one with full permissions; non-trivial when an unsandboxed render enters the callback from inside",
 		Assumptions: []string{
 			"whether calling a macro or parent() is a function call in the sense of the policy is not fixed by the statement: those names are always on the allow-lists (except under deny-all, where only 'never invoked' and 'errors are security violations' are demanded)",
 			"macro default expressions: whether they are evaluated is not fixed; only 'never invoked' and 'errors are security violations' are demanded there",
@@ -1318,6 +1573,7 @@ func main() {
 			"receiver-style calls recv.name(…): the statement does not say they are calls of the function `name`; the control run decides per case (where it does not invoke the callback the case is recorded as trivial and nothing is demanded)",
 			"'the engine's security policy' is read as the policy in force when the render happens: the object last passed to EnableSandbox with the answers it gives during that render",
 			"probed function usages: only calls that evaluate to a plain alphanumeric scalar, the same on two fresh engines, are generated (dump(…) prints Go syntax, date() and random() depend on the moment: not generated beyond their hand-written usages); the expected value is the one the unsandboxed engine gives, not a model of the function",
+			"panic-history family: nothing is demanded of a render in which the host's callback panics (whether the panic propagates or becomes an error is not this property's business), only of the renders after it; every case starts from empty process-wide pools (two forced collections) and the collector is off during a case, so that a case is a function of its key; renders never overlap in time (what concurrent renders do to each other is property C02's business, not this statement's)",
 			"built-in family: the spaceless TAG is not taken for an application of the spaceless filter (not generated as a position of the forbidden filter spaceless); positions whose own helper filter (default, join, length) is the forbidden name are not generated; what RenderTo has written before a refused render is only inspected, never demanded",
 		},
 		QuickDeadline: 120, ThoroughDeadline: 840,
